@@ -287,7 +287,8 @@ func (c *Ctx) Response(rich bool) *Response {
 		r.Content = JSONContent(c.BodySchema("respbody"))
 		c.Tag("resp:json")
 	case 2:
-		r.Content = map[string]*MediaType{"application/octet-stream": {Schema: &Schema{Type: "string", Format: "binary"}}}
+		mt := rapid.SampledFrom([]string{"application/octet-stream", "application/octet-stream", "text/plain", "application/xml", "image/png", "application/json-patch+json", "application/jsonlines", "text/csv; charset=utf-8"}).Draw(t, "raw_media_type")
+		r.Content = map[string]*MediaType{mt: {Schema: &Schema{Type: "string", Format: "binary"}}}
 		c.Tag("resp:raw")
 	default:
 		c.Tag("resp:nobody")
@@ -922,8 +923,9 @@ func (c *Ctx) JSONDoc() *Doc {
 func (c *Ctx) ResponsesDoc() *Doc {
 	t := c.T
 	d := c.Doc
-	// a few component schemas for bodies
-	ns := rapid.IntRange(1, 4).Draw(t, "nschemas")
+	// a few component schemas for bodies (sometimes none: shared responses may be the
+	// only components of a spec)
+	ns := rapid.IntRange(0, 4).Draw(t, "nschemas")
 	for i := 0; i < ns; i++ {
 		c.AddSchema(c.CompName("Sch", "schema"), c.Schema(2, "component"))
 	}
